@@ -7,6 +7,7 @@
            simple_parsing/wrappers/field_wrapper.py:1037-1091 (`only_keep_action_args`)
            simple_parsing/helpers/partial.py:61-202        (`_cache_when_possible`, `config_for`)
            simple_parsing/helpers/partial.py:205-223       (`infer_type_annotation_from_default`)
+           simple_parsing/helpers/partial.py:226-247       (`_parse_args_from_docstring`)
            simple_parsing/helpers/partial.py:300-308       (`Partial.__call__`)
   plus CPython's argument binding (`bind`), which the theorems need in order to say what the wrapped
   callable *receives*.
@@ -14,6 +15,7 @@
   Values are opaque (`V`): the front-ends never look inside a parsed value, they only route it.
 -/
 import SpVerif.Model.Core
+import SpVerif.Model.BoolFlag
 namespace SpVerif.Callables
 open SpVerif
 
@@ -307,6 +309,69 @@ def kwAllowed (sig : List (Param V)) (kw : List (Str × V)) : Bool :=
 def bind (sig : List (Param V)) (args : List V) (kw : List (Str × V)) : Option (List (Str × V)) :=
   if kwAllowed sig kw then bindGo sig args kw else none
 
+/-! ## docstring `Args:` sections → help text  (partial.py:144-148,174-180,226-247) -/
+
+/-- `stripped.split(":", maxsplit=1)`: `none` = no colon (the tuple unpacking raises ValueError) -/
+def splitFirstColon : Str → Option (Str × Str)
+  | [] => none
+  | c :: cs =>
+    if c = ':' then some ([], cs)
+    else match splitFirstColon cs with
+      | some (a, b) => some (c :: a, b)
+      | none => none
+
+/-- `d[k] = v` on an insertion-ordered dict -/
+def assocSet (k : Str) (v : Str) : List (Str × Str) → List (Str × Str)
+  | [] => [(k, v)]
+  | (k', v') :: rest => if k' == k then (k', v) :: rest else (k', v') :: assocSet k v rest
+
+inductive DocOut
+  | ok (entries : List (Str × Str))
+  | valueError          -- an entry line without a colon
+  | keyError            -- a continuation line before the first entry (`parsed[""] += …`)
+  deriving Repr, DecidableEq
+
+def isArgsHeader (stripped : Str) : Bool :=
+  startsWith stripped "Args:".toList || startsWith stripped "Arguments:".toList
+    || startsWith stripped "Parameters:".toList
+
+/-- the loop of `_parse_args_from_docstring` (partial.py:231-246); `bi` = `arg_block_indent`,
+    `cur` = `current_arg`. Whitespace is the ASCII fragment of `str.lstrip()`. -/
+def docLoop : List Str → Option Nat → Str → List (Str × Str) → DocOut
+  | [], _, _, parsed => .ok parsed
+  | line :: rest, bi, cur, parsed =>
+    let stripped := lstripWs line
+    if stripped.isEmpty then docLoop rest bi cur parsed
+    else
+      let indent := line.length - stripped.length
+      if isArgsHeader stripped then docLoop rest (some (indent + 4)) cur parsed
+      else match bi with
+        | none => docLoop rest bi cur parsed
+        | some b =>
+          if indent < b then .ok parsed                                  -- `break`
+          else if indent = b then
+            match splitFirstColon stripped with
+            | none => .valueError
+            | some (k, d) => docLoop rest bi k (assocSet k (lstripWs d) parsed)
+          else match parsed.lookup cur with
+            | none => .keyError
+            | some v => docLoop rest bi cur (assocSet cur (v ++ ' ' :: stripped) parsed)
+
+def parseArgsDoc (doc : Str) : DocOut := docLoop (splitOnChar '\n' doc) none [] []
+
+/-- `{v for k, v in entries.items() if k.startswith(name)}` as a duplicate-free list -/
+def helpEntries (entries : List (Str × Str)) (name : Str) : List Str :=
+  dedup ((entries.filter (fun e => startsWith e.1 name)).map (·.2))
+
+/-- partial.py:174-180: `init_help_entries or class_help_entries`, then `set.pop()`.
+    `none` = two or more distinct candidates (which one `pop` returns depends on the hash seed). -/
+def pickHelp (initE classE : List (Str × Str)) (name : Str) : Option Str :=
+  let h := if (helpEntries initE name).isEmpty then helpEntries classE name else helpEntries initE name
+  match h with
+  | [] => some []
+  | [x] => some x
+  | _ => none
+
 /-! ## `config_for`  (partial.py:131-202) -/
 
 /-- runtime shape of a default value, as far as `infer_type_annotation_from_default` looks -/
@@ -346,6 +411,7 @@ structure CField (V : Type) where
 inductive CfgOut (V : Type)
   | ok (fields : List (CField V))
   | notImplemented
+  | docError (o : DocOut)        -- raised while reading the docstrings, before the loop
   deriving Repr
 
 /-- partial.py:151-153: `defaults.get(name, parameter.default)` -/
@@ -384,6 +450,22 @@ def configLoop (classAnn ignore : List Str) (overrides : List (Str × V × Shape
 def configFor (classAnn ignore : List Str) (overrides : List (Str × V × Shape))
     (sig : List (CParam V)) : CfgOut V :=
   configLoop classAnn ignore overrides sig []
+
+/-- `config_for` including the docstrings (partial.py:144-148: class docstring first, then — for a
+    class — the docstring of `__init__`; `none` = no docstring / not a class): the fields and, per
+    field, the help text. -/
+def configForDoc (classDoc initDoc : Option Str) (classAnn ignore : List Str)
+    (overrides : List (Str × V × Shape)) (sig : List (CParam V)) :
+    CfgOut V × List (Str × Option Str) :=
+  match parseArgsDoc (classDoc.getD []) with
+  | .ok classE =>
+    match parseArgsDoc (initDoc.getD []) with
+    | .ok initE =>
+      match configFor classAnn ignore overrides sig with
+      | .ok fs => (.ok fs, fs.map (fun f => (f.name, pickHelp initE classE f.name)))
+      | e => (e, [])
+    | e => (.docError e, [])
+  | e => (.docError e, [])
 
 /-! ## `Partial.__call__`  (partial.py:300-308) -/
 
